@@ -270,4 +270,4 @@ with mloop (cf : cfg) (fuel : nat) (indef : bool) (v : value) (c b : list struct
 (* main.execute_vyxal: Context(), stack, ctx.inputs[0][0] = inputs, the two ctx.stacks.append(stack),
    exec(code), then the implicit output *)
 Definition run_machine (fl : flag) (fuel : nat) (inputs : list value) (p : list struct) : xres state :=
-  xdo s <- exec (cfg_of fl) fuel false p (init_state fl inputs); finish fl s.
+  xdo s <- exec (cfg_of fl) fuel false p (init_state fl inputs); finish (m_app (exec (cfg_of fl) fuel)) fl s.
